@@ -208,6 +208,7 @@ pub struct RWorld {
     pub user: String,
     pub puppets: Vec<String>, // custom-typed puppet instances
     pub lifted: Vec<String>,  // Empty-typed, lifted instances
+    pub codes: (u64, u64),    // (custom-typed code id, lifted code id)
 }
 
 impl RWorld {
@@ -231,12 +232,12 @@ impl RWorld {
         let mut puppets = vec![];
         let mut lifted = vec![];
         for i in 0..3 {
-            puppets.push(app.instantiate_contract(c1, Addr::unchecked(user.clone()), &init, &[coin(1000, "ua")], format!("p{}", i), None).unwrap().to_string());
-            lifted.push(app.instantiate_contract(c2, Addr::unchecked(user.clone()), &init, &[coin(1000, "ua")], format!("l{}", i), None).unwrap().to_string());
+            puppets.push(app.instantiate_contract(c1, Addr::unchecked(user.clone()), &init, &[coin(1000, "ua")], format!("p{}", i), Some(user.clone())).unwrap().to_string());
+            lifted.push(app.instantiate_contract(c2, Addr::unchecked(user.clone()), &init, &[coin(1000, "ua")], format!("l{}", i), Some(user.clone())).unwrap().to_string());
         }
         hub.log.borrow_mut().clear();
         let _ = take_trace();
-        RWorld { app, hub, user, puppets, lifted }
+        RWorld { app, hub, user, puppets, lifted, codes: (c1, c2) }
     }
 }
 
@@ -306,11 +307,30 @@ pub enum Origin {
 
 pub type Fail = (String, String);
 
-/// Builds the transaction that makes `msg` originate from `origin`; returns (top-level message, expected sender).
-/// `mode`: reply mode of the emitting sub-message; `extra_first`: an accepting sibling dispatched before it.
-fn build(w: &RWorld, origin: Origin, msg: &CosmosMsg<PMsg>, mode: RMode, sibling: Option<&CosmosMsg<PMsg>>, tag: u32) -> (CosmosMsg<PMsg>, String) {
+/// The entry point of the emitting contract that returns the message.
+#[derive(Clone, Copy, Debug, PartialEq, Eq)]
+pub enum Ent {
+    Execute,
+    Instantiate,
+    Reply,
+    Sudo,
+    Migrate,
+}
+
+/// How the top-level call is made.
+pub enum TopCall {
+    Execute(CosmosMsg<PMsg>),
+    WasmSudo(String, Script),
+}
+
+/// Builds the transaction that makes `msg` originate from `origin` through entry point `ent` of the emitting
+/// contract; returns (top-level call, expected sender if already known, tag of the emitting script).
+/// `mode`: reply mode of the emitting sub-message; `sibling`: an accepting sibling dispatched before it.
+fn build(w: &RWorld, origin: Origin, ent: Ent, msg: &CosmosMsg<PMsg>, mode: RMode, sibling: Option<&CosmosMsg<PMsg>>, tag: u32) -> (TopCall, Option<String>, u32) {
+    // a contract created by this very transaction needs money of its own to send a bank message
+    let inst_funds = if matches!(msg, CosmosMsg::Bank(_)) { vec![coin(5, "ua")] } else { vec![] };
     match origin {
-        Origin::Top => (msg.clone(), w.user.clone()),
+        Origin::Top => (TopCall::Execute(msg.clone()), Some(w.user.clone()), 0),
         Origin::Puppet(d) | Origin::Lifted(d) => {
             let lifted = matches!(origin, Origin::Lifted(_));
             let chain: Vec<String> = (0..d).map(|i| if lifted && i + 1 == d { w.lifted[i % 3].clone() } else { w.puppets[i % 3].clone() }).collect();
@@ -321,21 +341,43 @@ fn build(w: &RWorld, origin: Origin, msg: &CosmosMsg<PMsg>, mode: RMode, sibling
                 msgs.push(Sub { id: 1, mode: RMode::Never, payload: Payload::Raw(Binary::default()), msg: Msg::Opaque(s.clone()) });
             }
             msgs.push(Sub { id: 2, mode, payload: Payload::Plan(Box::new(plan)), msg: Msg::Opaque(msg.clone()) });
-            let mut script = Script { tag: tag + 3, writes: vec![(Binary::from(b"w".to_vec()), Some(Binary::from(format!("{}", tag).into_bytes())))], msgs, ..Default::default() };
+            let emit_tag = tag + 3;
+            let emit = Script { tag: emit_tag, writes: vec![(Binary::from(b"w".to_vec()), Some(Binary::from(format!("{}", tag).into_bytes())))], msgs, ..Default::default() };
+            // the message that makes the emitting contract run `emit` in the requested entry point
+            let (inner, known_sender): (Msg, Option<String>) = match ent {
+                Ent::Execute => (Msg::Exec { addr: emitter.clone(), script: Box::new(emit), funds: vec![] }, Some(emitter.clone())),
+                Ent::Instantiate => (
+                    Msg::Inst { code_id: if lifted { w.codes.1 } else { w.codes.0 }, script: Box::new(emit), funds: inst_funds, label: format!("emitter{}", tag), admin: None, salt: None },
+                    None, // the new contract's address is read from the trace
+                ),
+                Ent::Reply => {
+                    let outer = Script {
+                        tag: tag + 4,
+                        msgs: vec![Sub {
+                            id: 9,
+                            mode: RMode::Success,
+                            payload: Payload::Plan(Box::new(ReplyPlan { nonce: tag + 5, on_ok: emit, on_err: Script { tag: tag + 6, ..Default::default() } })),
+                            msg: Msg::BankSend { to: emitter.clone(), coins: vec![coin(1, "ua")] },
+                        }],
+                        ..Default::default()
+                    };
+                    (Msg::Exec { addr: emitter.clone(), script: Box::new(outer), funds: vec![] }, Some(emitter.clone()))
+                }
+                Ent::Sudo => return (TopCall::WasmSudo(emitter.clone(), emit), Some(emitter), emit_tag),
+                Ent::Migrate => (Msg::Migrate { addr: emitter.clone(), code_id: if lifted { w.codes.1 } else { w.codes.0 }, script: Box::new(emit) }, Some(emitter.clone())),
+            };
+            let mut top = inner;
             for lvl in (0..d - 1).rev() {
-                script = Script {
-                    tag: tag + 10 + lvl as u32,
-                    msgs: vec![Sub { id: 0, mode: RMode::Never, payload: Payload::Raw(Binary::default()), msg: Msg::Exec { addr: chain[lvl + 1].clone(), script: Box::new(script), funds: vec![] } }],
-                    ..Default::default()
-                };
+                let script = Script { tag: tag + 10 + lvl as u32, msgs: vec![Sub { id: 0, mode: RMode::Never, payload: Payload::Raw(Binary::default()), msg: top }], ..Default::default() };
+                top = Msg::Exec { addr: chain[lvl].clone(), script: Box::new(script), funds: vec![] };
             }
-            (to_cosmos::<PMsg>(&Msg::Exec { addr: chain[0].clone(), script: Box::new(script), funds: vec![] }), emitter)
+            (TopCall::Execute(to_cosmos::<PMsg>(&top)), known_sender, emit_tag)
         }
     }
 }
 
 /// One cell of the matrix: message of kind `k` from `origin` under the current configuration.
-pub fn exec_cell(w: &mut RWorld, k: Kind, origin: Origin, mode: RMode, with_sibling: bool, n: u64, rep: &mut Report) -> Option<Fail> {
+pub fn exec_cell(w: &mut RWorld, k: Kind, origin: Origin, ent: Ent, mode: RMode, with_sibling: bool, n: u64, rep: &mut Report) -> Option<Fail> {
     if k == Kind::Custom && matches!(origin, Origin::Lifted(_)) {
         return None; // cannot be expressed in the Empty message type
     }
@@ -343,7 +385,7 @@ pub fn exec_cell(w: &mut RWorld, k: Kind, origin: Origin, mode: RMode, with_sibl
     let msg = make_msg(k, n, &to);
     let sibling = if with_sibling && origin != Origin::Top { Some(make_msg(if k == Kind::Ibc { Kind::Gov } else { Kind::Ibc }, n + 1000, &to)) } else { None };
     let sibling_module = sibling.as_ref().map(|_| if k == Kind::Ibc { "gov" } else { "ibc" });
-    let (top, expected_sender) = build(w, origin, &msg, mode, sibling.as_ref(), (n as u32) * 100 + 5000);
+    let (top, known_sender, emit_tag) = build(w, origin, ent, &msg, mode, sibling.as_ref(), (n as u32) * 100 + 5000);
     let module = module_of(k);
     let module_fails = module != "bank" && w.hub.fails(module);
     let sibling_fails = sibling_module.map(|m| w.hub.fails(m)).unwrap_or(false);
@@ -351,14 +393,19 @@ pub fn exec_cell(w: &mut RWorld, k: Kind, origin: Origin, mode: RMode, with_sibl
     w.hub.log.borrow_mut().clear();
     let _ = take_trace();
     let user = w.user.clone();
-    let res = catch(|| w.app.execute(Addr::unchecked(user), top.clone()).map_err(|e| format!("{:#}", e)));
+    let res = catch(|| match &top {
+        TopCall::Execute(m) => w.app.execute(Addr::unchecked(user), m.clone()).map_err(|e| format!("{:#}", e)),
+        TopCall::WasmSudo(addr, script) => w.app.wasm_sudo(Addr::unchecked(addr.clone()), script).map_err(|e| format!("{:#}", e)),
+    });
     let log: Vec<LogEntry> = w.hub.log.borrow().clone();
     let trace = take_trace();
+    // the emitting contract as the trace saw it (needed when it was created by this very transaction)
+    let expected_sender = known_sender.unwrap_or_else(|| trace.iter().find(|t| t.tag == emit_tag).map(|t| t.contract.clone()).unwrap_or_default());
     rep.evaluations += 1;
-    let cell = format!("{:?}/{:?}/{}{}", k, origin, if module_fails { "module-fails" } else { "module-accepts" }, if mode == RMode::Error { "/caught" } else { "" });
+    let cell = format!("{:?}/{:?}/{:?}/{}{}", k, origin, ent, if module_fails { "module-fails" } else { "module-accepts" }, if mode == RMode::Error { "/caught" } else { "" });
     rep.bump(&format!("c17/exec/{}", cell));
     rep.fingerprints.insert(fp_str(&format!("{}{}{}", cell, with_sibling, w.hub.failing.borrow().iter().map(|(k, v)| format!("{}{}", k, v)).collect::<String>())));
-    let ctx = format!("{:?} from {:?} (mode {:?}, sibling {:?}, module {} {})", k, origin, mode, sibling_module, module, if module_fails { "fails" } else { "accepts" });
+    let ctx = format!("{:?} from {:?} via {:?} (mode {:?}, sibling {:?}, module {} {})", k, origin, ent, mode, sibling_module, module, if module_fails { "fails" } else { "accepts" });
     let res = match res {
         Ok(r) => r,
         Err(p) => return Some((format!("panic-routing-{:?}-from-{}", k, origin_class(origin)).to_lowercase(), format!("{}: panic {}", ctx, p))),
